@@ -323,6 +323,26 @@ func vClientFramesHdr(sid int64, end bool, fields ...[]int64) []int64 {
 
 func vClientFramesPick(r *vRand, xs ...string) string { return xs[r.Intn(len(xs))] }
 
+// vClientFramesPctMsg: grpc-message values from a percent-heavy grammar: complete %XY escapes,
+// malformed escapes (%Zz, %4, trailing %), and a '%' at each of the last three positions.
+func vClientFramesPctMsg(r *vRand) string {
+	if r.Chance(10) {
+		return vClientFramesPick(r, "", "msg", "a%20b", "100%", "%", "%4", "%41", "%41%", "%41%4", "%41%41", "retry in %31s (99%)", "%zz%4", "%%%", "%%4%")
+	}
+	const alpha = "%%%%%0123456789abcdefABCDEFgz s"
+	n := r.Intn(11)
+	b := make([]byte, n)
+	for i := range b {
+		b[i] = alpha[r.Intn(len(alpha))]
+	}
+	if n >= 3 && r.Chance(50) {
+		// a complete escape somewhere and a '%' at one of the last three positions
+		copy(b, "%4"+string("0123456789abcdefABCDEF"[r.Intn(22)]))
+		b[n-1-r.Intn(3)] = '%'
+	}
+	return string(b)
+}
+
 func vClientFramesGenHdr(r *vRand, sid int64, pBad int) []int64 {
 	F := vClientFramesF
 	bad := func() bool { return r.Chance(pBad) }
@@ -349,8 +369,8 @@ func vClientFramesGenHdr(r *vRand, sid int64, pBad int) []int64 {
 		} else if r.Chance(70) {
 			fs = append(fs, F(3, vClientFramesPick(r, "", "x", "1x", "-1", "+3", "007", "17", "99", "2147483647", "2147483648", "-2147483648", "-2147483649", "4294967295", "1.0", " 1", "0x1")))
 		}
-		if r.Chance(50) {
-			fs = append(fs, F(4, vClientFramesPick(r, "", "msg", "a%20b")))
+		if r.Chance(60) {
+			fs = append(fs, F(4, vClientFramesPctMsg(r)))
 		}
 	}
 	for r.Chance(30) {
@@ -412,6 +432,11 @@ func vClientFramesGen(r *vRand, tier string, idx int) ([]int64, [][]int64) {
 		sid := int64(1)
 		for _, gs := range []string{"0", "1", "16", "17", "-1", "2147483647", "2147483648", "", "x", "+5", "007"} {
 			ops = append(ops, []int64{1, 0}, okH(sid), okT(sid, gs))
+			sid += 2
+		}
+		// grpc-message values: '%' at each of the last three positions, complete and malformed escapes
+		for _, m := range []string{"%", "100%", "h%6", "%41", "%41%", "%41%4", "%41%41", "retry in %31s (99%)", "%zz%4", "a%2", "%%%", "%4%41%", "%E4%BD%A0%E5", ""} {
+			ops = append(ops, []int64{1, 0}, H(sid, true, F(1, "200"), F(2, "application/grpc"), F(3, "8"), F(4, m)))
 			sid += 2
 		}
 		ops = append(ops, []int64{1, 0}, okH(sid), okH(sid))
